@@ -32,8 +32,8 @@ VERIF = os.path.dirname(os.path.dirname(os.path.abspath(__file__)))
 REPO = os.environ.get("VERIF_REPO", "/repo")
 SRC = os.path.join(REPO, "datasketches", "src")
 HARNESS_DIR = os.path.join(VERIF, "harness")
-EVIDENCE_DIR = os.path.join(VERIF, "evidence")
-REPLAY_DIR = os.path.join(VERIF, "replays")
+EVIDENCE_DIR = os.environ.get("VERIF_EVIDENCE_DIR", os.path.join(VERIF, "evidence"))
+REPLAY_DIR = os.environ.get("VERIF_REPLAY_DIR", os.path.join(VERIF, "replays"))
 KNOWN = os.path.join(VERIF, "known_findings.json")
 MEM_KB = int(os.environ.get("VERIF_MEM_KB", str(14 * 1024 * 1024)))
 
@@ -467,7 +467,7 @@ def classify(h, res, out):
             return "inconclusive", "no cover property in harness (vacuity guard missing)"
         if res["covers_sat"] != res["covers_total"]:
             bad = [c["desc"] + " @ " + c["loc"] for c in res["checks"]
-                   if c["status"] in ("UNSATISFIABLE", "UNREACHABLE")]
+                   if c["status"] in ("UNSATISFIABLE", "UNREACHABLE") and ".cover." in c["id"]]
             return "inconclusive", "cover(s) not satisfied (vacuous or cut too much): " + "; ".join(bad)
         return "held", ""
     # FAILED
